@@ -377,3 +377,381 @@ Theorem page_control_lines m d :
   man_doc m = Ok d ->
   control_lines (to_writer d) = preamble_controls ++ flat_map own_controls d.
 Proof. intros H. apply doc_control_lines, doc_fine_good, (man_doc_fine _ _ H). Qed.
+
+(** * Totality: the expect/unwrap sites are unreachable for built commands *)
+
+Definition built_arg (a : marg) : Prop := a_num_args a <> None.
+
+Lemma map_res_total {A B} (f : A -> res B) l :
+  Forall (fun x => exists y, f x = Ok y) l -> exists ys, map_res f l = Ok ys.
+Proof.
+  induction 1 as [|x l [y Hy] _ [ys Hys]]; [exists []; reflexivity|].
+  exists (y :: ys). cbn [map_res]. rewrite Hy. cbn [bind]. rewrite Hys. reflexivity.
+Qed.
+
+Lemma concat_res_total {A B} (f : A -> res (list B)) l :
+  Forall (fun x => exists y, f x = Ok y) l -> exists d, concat_res f l = Ok d.
+Proof.
+  intros H. destruct (map_res_total f l H) as [ys E]. unfold concat_res. rewrite E. eexists. reflexivity.
+Qed.
+
+Lemma option_default_values_total a : built_arg a -> exists r, option_default_values a = Ok r.
+Proof.
+  unfold built_arg, option_default_values. destruct (a_num_args a) as [na|]; [|congruence]. intros _.
+  destruct (_ || _); [eexists; reflexivity|]. destruct (a_defaults a); eexists; reflexivity.
+Qed.
+
+Lemma options_opt_total a : built_arg a -> exists d, options_opt a = Ok d.
+Proof.
+  intros H. destruct (option_default_values_total a H) as [r E].
+  unfold options_opt. rewrite E. unfold built_arg in H. destruct (a_num_args a); [|congruence].
+  cbn [bind]. destruct (help_body a). eexists. reflexivity.
+Qed.
+
+Lemma options_pos_total a : built_arg a -> exists d, options_pos a = Ok d.
+Proof.
+  intros H. destruct (option_default_values_total a H) as [r E].
+  unfold options_pos. destruct (option_markers a). rewrite E. cbn [bind]. destruct (help_body a). eexists. reflexivity.
+Qed.
+
+Lemma Forall_filter {A} (P : A -> Prop) f l : Forall P l -> Forall P (filter f l).
+Proof. rewrite !Forall_forall. intros H x Hx. apply filter_In in Hx. apply H. tauto. Qed.
+
+Lemma partition_as_filter {A} (f : A -> bool) l :
+  partition f l = (filter f l, filter (fun x => negb (f x)) l).
+Proof.
+  induction l as [|x l IH]; [reflexivity|]. cbn [partition filter]. rewrite IH.
+  destruct (f x); reflexivity.
+Qed.
+
+Lemma options_total items : Forall built_arg items -> exists d, options items = Ok d.
+Proof.
+  intros H. unfold options.
+  destruct (concat_res_total options_opt (filter (fun a => negb (is_positional a)) items)) as [o Eo].
+  { eapply Forall_impl; [|apply Forall_filter, H]. apply options_opt_total. }
+  destruct (concat_res_total options_pos (filter is_positional items)) as [p Ep].
+  { eapply Forall_impl; [|apply Forall_filter, H]. apply options_pos_total. }
+  rewrite Eo, Ep. eexists. reflexivity.
+Qed.
+
+Lemma heading_sections_total hs : forall rest, Forall built_arg rest -> exists d, heading_sections hs rest = Ok d.
+Proof.
+  induction hs as [|h hs IH]; intros rest H; cbn [heading_sections]; [eexists; reflexivity|].
+  rewrite partition_as_filter.
+  destruct (options_total _ (Forall_filter _ (fun a => opt_beq (a_heading a) (Some h)) _ H)) as [o Eo].
+  destruct (IH _ (Forall_filter _ (fun x => negb (opt_beq (a_heading x) (Some h))) _ H)) as [r Er].
+  rewrite Eo. cbn [bind]. rewrite Er. eexists. reflexivity.
+Qed.
+
+Lemma render_options_section_total m :
+  Forall built_arg (c_args (m_cmd m)) -> exists d, render_options_section m = Ok d.
+Proof.
+  intros H. unfold render_options_section. rewrite partition_as_filter.
+  pose proof (Forall_filter _ visible _ H) as Hv.
+  destruct (heading_sections_total (help_headings (filter visible (c_args (m_cmd m)))) _
+              (Forall_filter _ (fun x => negb (negb (is_some (a_heading x)))) _ Hv)) as [s1 E1].
+  destruct (filter (fun a => negb (is_some (a_heading a))) (filter visible (c_args (m_cmd m)))) as [|a0 args] eqn:Ea.
+  - cbn [bind]. rewrite E1. eexists. reflexivity.
+  - destruct (options_total (a0 :: args)) as [o Eo].
+    { rewrite <- Ea. apply Forall_filter, Hv. }
+    rewrite Eo. cbn [bind]. rewrite E1. eexists. reflexivity.
+Qed.
+
+Lemma render_version_section_total m :
+  app_has_version (m_cmd m) = true -> exists d, render_version_section m = Ok d.
+Proof.
+  unfold app_has_version, render_version_section, version.
+  destruct (c_version (m_cmd m)), (c_long_version (m_cmd m)); cbn; try discriminate; intros _; eexists; reflexivity.
+Qed.
+
+Lemma man_doc_total m : Forall built_arg (c_args (m_cmd m)) -> exists d, man_doc m = Ok d.
+Proof.
+  intros H. unfold man_doc.
+  assert (exists opts, (if app_has_arguments (m_cmd m) then render_options_section m else Ok []) = Ok opts) as [opts Eo]
+    by (destruct (app_has_arguments (m_cmd m)); [apply render_options_section_total, H|eexists; reflexivity]).
+  assert (exists vers, (if app_has_version (m_cmd m) then render_version_section m else Ok []) = Ok vers) as [vers Ev]
+    by (destruct (app_has_version (m_cmd m)) eqn:E; [apply render_version_section_total, E|eexists; reflexivity]).
+  rewrite Eo. cbn [bind]. rewrite Ev. cbn [bind]. eexists. reflexivity.
+Qed.
+
+Lemma mbuild_built c : Forall built_arg (c_args (mbuild c)).
+Proof.
+  unfold mbuild. cbn [c_args]. apply Forall_forall. intros a Ha. apply in_map_iff in Ha.
+  destruct Ha as [a0 [<- _]]. unfold built_arg, arg_build. cbn [a_num_args]. discriminate.
+Qed.
+
+(** Man::new(cmd).render never reaches an expect/unwrap: for every command and every override. *)
+Theorem man_page_total c o : exists page, man_page c o = Ok page.
+Proof.
+  unfold man_page, man_render.
+  destruct (man_doc_total (apply_overrides o (man_new (mbuild c)))) as [d E].
+  { cbn [apply_overrides m_cmd man_new]. apply mbuild_built. }
+  rewrite E. eexists. reflexivity.
+Qed.
+
+(** The sites are real: an argument that was not built, a version section without a version. *)
+Example panic_sites_reachable_without_guards :
+  (forall a, a_num_args a = None -> options_opt a = Panic NumArgsNotBuilt)
+  /\ (forall c, c_version c = None -> c_long_version c = None -> version c = Panic VersionUnwrap).
+Proof.
+  split.
+  - intros a H. unfold options_opt. rewrite H. reflexivity.
+  - intros c H1 H2. unfold version. rewrite H1, H2. reflexivity.
+Qed.
+
+(** Every control element of a generated document is one of the generator's fixed requests: either
+    [.TH]/[.SH] (whose arguments carry author text, confined to that one line) or a request whose
+    arguments are literals of the generator. *)
+Theorem man_doc_requests m d name args :
+  man_doc m = Ok d -> In (Control name args) d -> ctl_fixed name args = true /\ ctl_clean name args = true.
+Proof.
+  intros H Hin. pose proof (man_doc_fine _ _ H) as Hf. unfold doc_fine in Hf.
+  rewrite forallb_forall in Hf. specialize (Hf _ Hin). unfold line_fine, line_good in Hf.
+  apply andb_true_iff in Hf. tauto.
+Qed.
+
+Theorem man_page_controls c o :
+  exists d, man_doc (apply_overrides o (man_new (mbuild c))) = Ok d
+            /\ man_page c o = Ok (to_writer d)
+            /\ control_lines (to_writer d) = preamble_controls ++ flat_map own_controls d.
+Proof.
+  destruct (man_doc_total (apply_overrides o (man_new (mbuild c)))) as [d E].
+  { cbn [apply_overrides m_cmd man_new]. apply mbuild_built. }
+  exists d. split; [exact E|]. split.
+  - unfold man_page, man_render. rewrite E. reflexivity.
+  - apply (page_control_lines _ _ E).
+Qed.
+
+(** * Visible items are named, hidden ones contribute nothing *)
+
+(** [occurs x s]: [x] is a contiguous part of [s]. *)
+Definition occurs (x s : bytes) : Prop := exists a b, s = a ++ x ++ b.
+
+Lemma occurs_app_l x s t : occurs x s -> occurs x (s ++ t).
+Proof. intros (a & b & ->). exists a, (b ++ t). rewrite <- !app_assoc. reflexivity. Qed.
+Lemma occurs_app_r x s t : occurs x t -> occurs x (s ++ t).
+Proof. intros (a & b & ->). exists (s ++ a), b. rewrite <- !app_assoc. reflexivity. Qed.
+Lemma occurs_refl x : occurs x x.
+Proof. exists [], []. rewrite app_nil_r. reflexivity. Qed.
+
+(** how a font inline reads on the page (it does not depend on the position in the line) *)
+Definition shown (i : inline) : bytes := render_inline true false i.
+
+Definition is_font (i : inline) : bool := match i with Bold _ | Italic _ => true | _ => false end.
+
+Lemma render_inlines_occurs i l f : is_font i = true -> In i l -> occurs (shown i) (render_inlines true f l).
+Proof.
+  intros Hf. revert f. induction l as [|j l IH]; intros f Hin; [destruct Hin|].
+  destruct Hin as [->|Hin]; cbn [render_inlines].
+  - apply occurs_app_l. destruct i; try discriminate; apply occurs_refl.
+  - apply occurs_app_r. apply IH. exact Hin.
+Qed.
+
+Lemma flat_map_occurs {A} (g : A -> bytes) l x y : In x l -> occurs y (g x) -> occurs y (flat_map g l).
+Proof.
+  induction l as [|z l IH]; intros Hin Ho; [destruct Hin|].
+  destruct Hin as [->|Hin]; cbn [flat_map].
+  - apply occurs_app_l, Ho.
+  - apply occurs_app_r, IH; assumption.
+Qed.
+
+(** A font inline of a text line of the document reads on the page as [shown]. *)
+Lemma page_shows d inl i :
+  In (Text inl) d -> In i inl -> is_font i = true -> occurs (shown i) (to_writer d).
+Proof.
+  intros Hd Hi Hf. unfold to_writer. apply occurs_app_r.
+  apply (flat_map_occurs (render_line true) d (Text inl)); [exact Hd|].
+  unfold render_line. apply occurs_app_l. cbn [render_body]. apply render_inlines_occurs; assumption.
+Qed.
+
+(** A single-roman text line of the document reads on the page as its escaped text. *)
+Lemma page_shows_roman_line d s :
+  In (Text [Roman s]) d -> occurs (escape_text true s) (to_writer d).
+Proof.
+  intros Hd. unfold to_writer. apply occurs_app_r.
+  apply (flat_map_occurs (render_line true) d (Text [Roman s])); [exact Hd|].
+  unfold render_line. apply occurs_app_l. cbn [render_body render_inlines render_inline].
+  rewrite app_nil_r. apply occurs_app_r, occurs_refl.
+Qed.
+
+(** the name under which a visible argument is listed in the SYNOPSIS *)
+Definition arg_name_inline (a : marg) : inline :=
+  match a_short a, a_long a with
+  | _, Some long => Bold (dashdash ++ long)
+  | Some short, None => Bold (dash ++ short ++ [32])
+  | None, None => Italic (pos_name a)
+  end.
+
+Lemma synopsis_line_in m d :
+  man_doc m = Ok d ->
+  exists inl, In (Text inl) d
+    /\ forall i, In i (flat_map synopsis_opt (filter visible (c_args (m_cmd m)))
+                       ++ flat_map synopsis_pos (synopsis_positionals (m_cmd m))) -> In i inl.
+Proof.
+  unfold man_doc.
+  destruct (if app_has_arguments (m_cmd m) then render_options_section m else Ok []) as [opts|]; [|cbn [bind]; discriminate].
+  cbn [bind].
+  destruct (if app_has_version (m_cmd m) then render_version_section m else Ok []) as [vers|]; [|cbn [bind]; discriminate].
+  cbn [bind]. intros H. apply Ok_inj in H. subst d.
+  unfold render_synopsis_section, synopsis.
+  eexists. split.
+  - apply in_or_app. right. apply in_or_app. right. apply in_or_app. left. right. left. reflexivity.
+  - intros i Hi. apply in_or_app. right. rewrite app_assoc. apply in_or_app. left. exact Hi.
+Qed.
+
+Lemma arg_name_in_synopsis c a :
+  In a (c_args c) -> a_hide a = false ->
+  In (arg_name_inline a) (flat_map synopsis_opt (filter visible (c_args c)) ++ flat_map synopsis_pos (synopsis_positionals c)).
+Proof.
+  intros Hin Hv. unfold arg_name_inline.
+  assert (In a (filter visible (c_args c))) as Hf by (apply filter_In; unfold visible; rewrite Hv; tauto).
+  destruct (a_short a) as [sh|] eqn:Es, (a_long a) as [lo|] eqn:El.
+  - apply in_or_app. left. apply in_flat_map. exists a. split; [exact Hf|].
+    unfold synopsis_opt. rewrite Es, El. destruct (option_markers a). cbn. tauto.
+  - apply in_or_app. left. apply in_flat_map. exists a. split; [exact Hf|].
+    unfold synopsis_opt. rewrite Es, El. destruct (option_markers a). cbn. tauto.
+  - apply in_or_app. left. apply in_flat_map. exists a. split; [exact Hf|].
+    unfold synopsis_opt. rewrite Es, El. destruct (option_markers a). cbn. tauto.
+  - apply in_or_app. right. apply in_flat_map. exists a. split.
+    + unfold synopsis_positionals. apply filter_In. split; [|unfold visible; rewrite Hv; reflexivity].
+      apply filter_In. split; [exact Hin|]. unfold is_positional. rewrite Es, El. reflexivity.
+    + unfold synopsis_pos. destruct (option_markers a). cbn. tauto.
+Qed.
+
+(** Every visible option / positional is named on the page (in the SYNOPSIS line). *)
+Theorem visible_arg_named m d a :
+  man_doc m = Ok d -> In a (c_args (m_cmd m)) -> a_hide a = false ->
+  occurs (shown (arg_name_inline a)) (to_writer d).
+Proof.
+  intros H Hin Hv. destruct (synopsis_line_in m d H) as (inl & Hd & Hall).
+  apply (page_shows d inl); [exact Hd| |].
+  - apply Hall. apply arg_name_in_synopsis; assumption.
+  - unfold arg_name_inline. destruct (a_short a), (a_long a); reflexivity.
+Qed.
+
+(** the name under which a visible subcommand is listed *)
+Definition sub_title (m : mman) (s : msub) : bytes :=
+  display_or_name (m_cmd m) ++ dash ++ s_name s ++ lparen ++ m_sect m ++ rparen.
+
+Lemma sub_line_in m d s :
+  man_doc m = Ok d -> In s (c_subs (m_cmd m)) -> s_hide s = false -> In (Text [Roman (sub_title m s)]) d.
+Proof.
+  intros H Hin Hv. unfold man_doc in H.
+  destruct (if app_has_arguments (m_cmd m) then render_options_section m else Ok []) as [opts|]; [|cbn [bind] in H; discriminate].
+  cbn [bind] in H.
+  destruct (if app_has_version (m_cmd m) then render_version_section m else Ok []) as [vers|]; [|cbn [bind] in H; discriminate].
+  cbn [bind] in H. apply Ok_inj in H. subst d.
+  assert (app_has_subcommands (m_cmd m) = true) as Hs.
+  { unfold app_has_subcommands. apply existsb_exists. exists s. unfold sub_visible. rewrite Hv. tauto. }
+  rewrite Hs.
+  do 5 (apply in_or_app; right). apply in_or_app. left.
+  unfold render_subcommands_section. right. unfold subcommands. apply in_flat_map.
+  exists s. split; [apply filter_In; unfold sub_visible; rewrite Hv; tauto|].
+  apply in_or_app. left. right. left. reflexivity.
+Qed.
+
+(** Every visible subcommand is named on the page (its own text line [name-sub(section)]). *)
+Theorem visible_sub_named m d s :
+  man_doc m = Ok d -> In s (c_subs (m_cmd m)) -> s_hide s = false ->
+  occurs (escape_text true (sub_title m s)) (to_writer d).
+Proof. intros H Hin Hv. apply page_shows_roman_line. apply (sub_line_in m d s H Hin Hv). Qed.
+
+(** ** hidden items *)
+
+Definition with_lists (c : mcmd) (args : list marg) (subs : list msub) : mcmd :=
+  {| c_name := c_name c; c_display_name := c_display_name c; c_bin_name := c_bin_name c;
+     c_version := c_version c; c_long_version := c_long_version c; c_author := c_author c;
+     c_about := c_about c; c_long_about := c_long_about c; c_after_help := c_after_help c;
+     c_after_long_help := c_after_long_help c; c_before_long_help := c_before_long_help c;
+     c_sub_heading := c_sub_heading c; c_sub_value_name := c_sub_value_name c;
+     c_sub_required := c_sub_required c; c_no_help_flag := c_no_help_flag c;
+     c_no_version_flag := c_no_version_flag c; c_no_help_sub := c_no_help_sub c;
+     c_args := args; c_subs := subs |}.
+
+Definition with_cmd (m : mman) (c : mcmd) : mman :=
+  {| m_cmd := c; m_title := m_title m; m_sect := m_sect m; m_dat := m_dat m;
+     m_source := m_source m; m_manu := m_manu m |}.
+
+Lemma filter_comm {A} (f g : A -> bool) l : filter f (filter g l) = filter g (filter f l).
+Proof.
+  induction l as [|x l IH]; [reflexivity|]. cbn [filter].
+  destruct (g x) eqn:Eg, (f x) eqn:Ef; cbn [filter]; rewrite ?Eg, ?Ef, IH; reflexivity.
+Qed.
+
+Lemma existsb_filter {A} (f : A -> bool) l : existsb f l = existsb f (filter f l).
+Proof.
+  induction l as [|x l IH]; [reflexivity|]. cbn [existsb filter].
+  destruct (f x) eqn:E; cbn [existsb]; rewrite ?E, IH; reflexivity.
+Qed.
+
+(** The page is a function of the visible arguments and visible subcommands (and of whether there
+    is any subcommand at all, which decides the [subcommands] placeholder of the SYNOPSIS): two
+    commands that differ only in hidden items have the same man page. *)
+Theorem hidden_items_contribute_nothing m args' subs' :
+  filter visible args' = filter visible (c_args (m_cmd m)) ->
+  filter sub_visible subs' = filter sub_visible (c_subs (m_cmd m)) ->
+  (subs' = [] <-> c_subs (m_cmd m) = []) ->
+  man_doc (with_cmd m (with_lists (m_cmd m) args' subs')) = man_doc m.
+Proof.
+  intros Ha Hs He.
+  unfold man_doc.
+  cbn [m_cmd with_cmd].
+  assert (app_has_arguments (with_lists (m_cmd m) args' subs') = app_has_arguments (m_cmd m)) as ->.
+  { unfold app_has_arguments. cbn [c_args with_lists]. rewrite existsb_filter, Ha, <- existsb_filter. reflexivity. }
+  assert (app_has_subcommands (with_lists (m_cmd m) args' subs') = app_has_subcommands (m_cmd m)) as ->.
+  { unfold app_has_subcommands. cbn [c_subs with_lists]. rewrite existsb_filter, Hs, <- existsb_filter. reflexivity. }
+  assert (render_options_section (with_cmd m (with_lists (m_cmd m) args' subs')) = render_options_section m) as ->.
+  { unfold render_options_section. cbn [m_cmd with_cmd c_args with_lists]. rewrite Ha. reflexivity. }
+  assert (render_synopsis_section (with_cmd m (with_lists (m_cmd m) args' subs')) = render_synopsis_section m) as ->.
+  { unfold render_synopsis_section, synopsis, synopsis_positionals. cbn [m_cmd with_cmd c_args with_lists c_bin_name c_name].
+    rewrite (filter_comm visible is_positional args'), Ha, <- (filter_comm visible is_positional).
+    assert (synopsis_sub (with_lists (m_cmd m) args' subs') = synopsis_sub (m_cmd m)) as ->; [|reflexivity].
+    unfold synopsis_sub, subcommand_markers, subcommand_heading. cbn [c_subs with_lists c_sub_required c_sub_value_name c_sub_heading].
+    destruct subs' as [|s0 subs'], (c_subs (m_cmd m)) as [|s1 subs1]; try reflexivity.
+    - destruct He as [He _]. specialize (He eq_refl). discriminate.
+    - destruct He as [_ He]. specialize (He eq_refl). discriminate. }
+  assert (render_subcommands_section (with_cmd m (with_lists (m_cmd m) args' subs')) = render_subcommands_section m) as ->.
+  { unfold render_subcommands_section, subcommands, subcommand_heading, display_or_name.
+    cbn [m_cmd with_cmd c_subs with_lists c_sub_heading c_display_name c_name m_sect]. rewrite Hs. reflexivity. }
+  reflexivity.
+Qed.
+
+(** Hidden possible values: the listing depends on the visible ones only. *)
+Lemma hidden_possible_values_contribute_nothing a :
+  get_possible_values a =
+  (if a_hide_pvs a then None
+   else match filter (fun p => negb (pv_hide p)) (get_possible_values_arg a) with
+        | [] => None
+        | ps => Some (format_possible_values ps)
+        end).
+Proof. reflexivity. Qed.
+
+(** Non-vacuity: a command with a hidden option, a hidden positional and a hidden subcommand next to
+    visible ones renders, and dropping the hidden items does not change the page. *)
+Definition ex_arg (id : bytes) (long : option bytes) (hide : bool) : marg :=
+  {| a_id := id; a_short := None; a_long := long; a_action := ASet; a_num_args := None;
+     a_value_names := []; a_help := Some [46; 104]; a_long_help := None; a_hide := hide;
+     a_hide_short_help := false; a_hide_long_help := false; a_hide_env := false;
+     a_hide_default := false; a_hide_pvs := false; a_required := false; a_defaults := [];
+     a_env := None; a_pvs := []; a_heading := None |}.
+
+Definition ex_cmd (args : list marg) (subs : list msub) : mcmd :=
+  {| c_name := [97]; c_display_name := None; c_bin_name := None; c_version := Some [49; 10; 46; 120];
+     c_long_version := None; c_author := None; c_about := Some [46; 97; 10; 39; 98]; c_long_about := None;
+     c_after_help := None; c_after_long_help := None; c_before_long_help := None; c_sub_heading := None;
+     c_sub_value_name := None; c_sub_required := false; c_no_help_flag := false;
+     c_no_version_flag := false; c_no_help_sub := false; c_args := args; c_subs := subs |}.
+
+Definition no_overrides : moverrides :=
+  {| o_title := None; o_section := None; o_date := None; o_source := None; o_manual := None |}.
+
+Example hidden_example :
+  let vis_a := ex_arg [118] (Some [46; 118]) false in
+  let hid_a := ex_arg [104; 105] (Some [104; 105]) true in
+  let hid_p := ex_arg [72; 80] None true in
+  let vis_s := {| s_name := [115]; s_about := Some [39; 120]; s_long_about := None; s_hide := false |} in
+  let hid_s := {| s_name := [116]; s_about := None; s_long_about := None; s_hide := true |} in
+  man_page (ex_cmd [hid_a; vis_a; hid_p] [hid_s; vis_s]) no_overrides
+  = man_page (ex_cmd [vis_a] [vis_s]) no_overrides
+  /\ exists page, man_page (ex_cmd [vis_a] [vis_s]) no_overrides = Ok page.
+Proof. vm_compute. split; [reflexivity|eexists; reflexivity]. Qed.
